@@ -172,7 +172,8 @@ func ZZFullInterface(name string, epoch time.Time) Interface {
 // stanzas of one kind only (smaller symbolic state than ZZFullInterface):
 //
 //	0 header fields, 1 static prefix, 2 static route, 3 RDNSS + DNSSL,
-//	4 MTU + captive portal + PREF64, 5 deprecated prefix, 6 deprecated route
+//	4 MTU + captive portal + PREF64, 5 deprecated prefix, 6 deprecated route,
+//	7 wildcard prefix, 8 wildcard route + wildcard RDNSS
 func ZZKindInterface(name string, kind int, epoch time.Time) Interface {
 	var raw rawInterface
 	raw.Advertise = true
@@ -200,6 +201,11 @@ func ZZKindInterface(name string, kind int, epoch time.Time) Interface {
 	case 6:
 		rl2, _ := zzValueKey(name + ".r2.lifetime")
 		raw.Routes = []rawRoute{{Prefix: "2001:db8:eeee::/48", Lifetime: &rl2, Deprecated: true}}
+	case 7:
+		raw.Prefixes = []rawPrefix{{Prefix: "::/64"}}
+	case 8:
+		raw.Routes = []rawRoute{{Prefix: "::/0"}}
+		raw.RDNSS = []rawRDNSS{{Servers: []string{"::"}}}
 	case 3:
 		dlf, _ := zzValueKey(name + ".rdnss.lifetime")
 		slf, _ := zzValueKey(name + ".dnssl.lifetime")
